@@ -155,6 +155,14 @@ Definition ops : list (string * (tree -> tree)) := [
       let '(p0, tid) := tTrackTask (tNth t 0) total in
       let id := match tid with Some i => i | None => p_next p0 end in
       track_result p0 id (track_thread tid (p_next p0) total xs (tList tB (tNth t 3))));
+  ("track_abandon", fun t =>         (* [existing?, xs, total?, k, path] *)
+      let xs := tList tZ (tNth t 1) in
+      let total := match tOpt tQ (tNth t 2) with Some q => q | None => qZ (zlen xs) end in
+      let '(p0, tid) := tTrackTask (tNth t 0) total in
+      let id := match tid with Some i => i | None => p_next p0 end in
+      let k := Z.to_nat (tZ (tNth t 3)) in
+      track_result p0 id (if tB (tNth t 4) then track_thread_abandoned tid (p_next p0) total xs k
+                          else track_direct_abandoned tid (p_next p0) total xs k));
   ("conc_run", fun t =>              (* [c0,total,start?,period,progs, variant, schedule] model-only *)
       let evs := if tB (tNth t 5) then Conc.advance_events_asis else advance_events in
       let st := Conc.srun evs (tConcInit t) (map Z.to_nat (tList tZ (tNth t 6))) in
